@@ -193,12 +193,16 @@ def handle_violations(binary, prop, seed, records, opens, max_minimise=6, payloa
             continue
         # an unlisted violation: write replay file, minimise, confirm, report (first of the class)
         r, x = items[0]
-        raw = os.path.join(REPLAY_DIR, "%s-%d-%d.raw.json" % (prop, seed, r["run"]))
-        json.dump({"property": prop, "invariant": inv, "class": cls, "violation": x, payload: r[payload], "seed": seed, "run": r["run"]}, open(raw, "w"), indent=1)
-        final = os.path.join(REPLAY_DIR, "%s-%d-%d.json" % (prop, seed, r["run"]))
+        tag = "".join(ch if ch.isalnum() else "_" for ch in inv)[:40]
+        raw = os.path.join(REPLAY_DIR, "%s-%d-%d-%s.raw.json" % (prop, seed, r["run"], tag))
+        doc = {"property": prop, "invariant": inv, "class": cls, "violation": x, payload: r[payload], "seed": seed, "run": r["run"]}
+        if inv == "hash_seed_dependence":
+            doc["hash_sweep"] = [0] + list(x["witness"].get("salts", []))
+        json.dump(doc, open(raw, "w"), indent=1)
+        final = os.path.join(REPLAY_DIR, "%s-%d-%d-%s.json" % (prop, seed, r["run"], tag))
         env = env_offline({"LD_PRELOAD": SHIM})
         ok_min = False
-        if minimised < max_minimise:
+        if minimised < max_minimise and inv != "hash_seed_dependence":
             minimised += 1
             m = subprocess.run([binary, "minimise", "--file", raw, "--out", final], env=env, capture_output=True, text=True)
             ok_min = m.returncode == 0 and os.path.exists(final)
